@@ -450,6 +450,18 @@ func (st *State) cutCall(kind, name string, args []Val, sig *types.Signature) Va
 				key += "|" + x.S
 			case BytesVal:
 				key += "|" + x.S.S
+			case SliceVal:
+				if x.Arr != nil {
+					key += fmt.Sprintf("|slice#%d+%d:%s", x.Arr.ID, x.Off, x.Len.S)
+				} else {
+					key += "|nilslice"
+				}
+			case PtrVal:
+				if x.L != nil {
+					key += fmt.Sprintf("|ptr#%d", x.L.ID)
+				} else {
+					key += "|nilptr"
+				}
 			default:
 				key += fmt.Sprintf("|%T", a)
 			}
